@@ -159,12 +159,24 @@ def table_rule(chk, prog):
     # get_properties: epoch from header field 0
     g = prog.func(WMM + "::WMM.get_properties")
     chk.touch(g)
-    txt = ast.unparse(g.node)
-    if "'epoch': float(v[0])" in txt and "split('\\n')[0]" in txt:
-        chk.record("TABLE.header", g.ref, "epoch is the first field of the first line of the given file")
-    else:
-        chk.record("TABLE.header", g.ref, "epoch is the first field of the first line of the given file", verdict="UNKNOWN")
-        chk.error("TABLE.header: get_properties no longer matches the recognised header-reading idiom")
+    # interpreted on a synthetic coefficient file (the package-data reader is replaced by one that returns it): whatever string idiom is used, the epoch must be
+    # the first field of the FIRST line and the model name / date the two fields after it
+    def header():
+        text = "    2031.5            WMM-TEST        01/02/2031\n  1  0  -29404.5       0.0        6.7        0.0\n  1  1   -1450.7    4652.9        7.7      -25.1\n9999.0 TAIL 9/9/9999\n"
+        it = Interp(prog, intercepts={"pkgutil.get_data": lambda it_, a, k: text.encode()})
+        obj = it.make_obj(WMM + "::WMM")
+        out = it.run(g, ["WMMTEST/WMM.COF"], self_obj=obj)
+        if not isinstance(out, dict):
+            return (None, "get_properties did not return a dictionary")
+        want = {"epoch": 2031.5, "model": "WMM-TEST", "modeldate": "01/02/2031"}
+        got = {k_: (float(v_.const()) if isinstance(v_, P.Rat) and v_.const() is not None else v_) for k_, v_ in out.items()}
+        bad = {k_: (got.get(k_), w_) for k_, w_ in want.items() if got.get(k_) != w_}
+        if bad:
+            k_ = sorted(bad)[0]
+            return (False, "for a file whose first line is `2031.5 WMM-TEST 01/02/2031` get_properties returns %s=%r (expected %r)" % (k_, bad[k_][0], bad[k_][1]), None)
+        return True
+    chk.ob("TABLE.header", g.ref, "epoch, model and model date are the three fields of the first line of the given file", header, module=WMM, function="WMM.get_properties",
+           construct="header fields", line=g.node.lineno)
 
 
 def _loop_names(f):
